@@ -239,8 +239,8 @@ func (sl *c11Slot) ask(line string) (ans string, status int, crash string) {
 }
 
 // per stream and directive: how many cases ended in TIMEOUT.  Every hang costs a watchdog period; once a directive
-// has shown maxTimeouts of them in a stream the rest of its cases in that stream are skipped (answer "total", tagged
-// trivial-skipped-…: they were not evaluated), so that a directive that hangs on a whole family of inputs cannot
+// has shown maxTimeouts of them in a stream the rest of its cases in that stream are skipped (answer "total" in the
+// search streams, SKIPPED in a tie; tagged trivial-skipped-…: they were not evaluated), so that a directive that hangs on a whole family of inputs cannot
 // stall the run.
 var (
 	c11TimeoutsMu sync.Mutex
@@ -303,7 +303,7 @@ func (sl *c11Slot) askSettled(stream string, f []string, always bool) (out strin
 }
 
 // c11Isolated evaluates one case of a search stream in a worker.
-func c11Isolated(stream string, f []string, maxTimeouts int) (string, []string) {
+func c11Isolated(stream string, f []string, maxTimeouts int, skipped string) (string, []string) {
 	key := stream + "/" + f[0]
 	line := stream + "\t" + strings.Join(f, "\t")
 	c11OrderMu.Lock()
@@ -328,7 +328,7 @@ func c11Isolated(stream string, f []string, maxTimeouts int) (string, []string) 
 		defer sl.mu.Unlock()
 	}
 	if c11TimeoutCount(key, 0) >= maxTimeouts {
-		return "total", []string{"dir=" + f[0], "trivial-skipped-after-timeout-in-" + f[0]}
+		return skipped, []string{"dir=" + f[0], "trivial-skipped-after-timeout-in-" + f[0]}
 	}
 	out, tags, st, crash := sl.askSettled(stream, f, false)
 	if st == c11Died {
